@@ -43,21 +43,21 @@ type step struct {
 
 // scenario is one generated case of the install check.
 type scenario struct {
-	Type         string   `json:"type"`
-	RevName      string   `json:"rev"`
-	Docs         []doc    `json:"docs"`
-	LeadSep      bool     `json:"leadSep"`
-	TrailSep     bool     `json:"trailSep"`
-	Shape        string   `json:"shape"`
-	Ignore       *bool    `json:"ignore,omitempty"`
-	SkipDeps     *bool    `json:"skipDeps,omitempty"`
-	Verification bool     `json:"verification"`
-	Verified     string   `json:"verified,omitempty"` // "", True, False, Unknown
-	Steps        []step   `json:"steps"`
-	Neighbour    string   `json:"neighbour,omitempty"` // another revision warmed the shared cache first
-	Verdict      string   `json:"verdict"`
-	Reason       string   `json:"reason"`
-	Seed         int64    `json:"seed"`
+	Type         string `json:"type"`
+	RevName      string `json:"rev"`
+	Docs         []doc  `json:"docs"`
+	LeadSep      bool   `json:"leadSep"`
+	TrailSep     bool   `json:"trailSep"`
+	Shape        string `json:"shape"`
+	Ignore       *bool  `json:"ignore,omitempty"`
+	SkipDeps     *bool  `json:"skipDeps,omitempty"`
+	Verification bool   `json:"verification"`
+	Verified     string `json:"verified,omitempty"` // "", True, False, Unknown
+	Steps        []step `json:"steps"`
+	Neighbour    string `json:"neighbour,omitempty"` // another revision warmed the shared cache first
+	Verdict      string `json:"verdict"`
+	Reason       string `json:"reason"`
+	Seed         int64  `json:"seed"`
 }
 
 // measure runs the real backend once without faults: how often the target
